@@ -23,7 +23,7 @@ import sys
 import z3
 
 from .core import Unsupported
-from .values import SymInt, SymBool, AtomStr, make_atom, as_bool
+from .values import SymInt, SymBool, SymBytes, AtomStr, make_atom, as_bool
 from .maps import GuardedList
 
 PREFIX = 'pykdebugparser'
@@ -65,6 +65,16 @@ def sx_map(f, *its):
 
 
 def sx_join(s, x):
+    if isinstance(s, (bytes, bytearray)):
+        x = list(x)
+        if any(isinstance(e, SymBytes) for e in x):
+            items = []
+            for i, e in enumerate(x):
+                if i:
+                    items += list(s)
+                items += list(e.items) if isinstance(e, SymBytes) else list(e)
+            return SymBytes.make(items)
+        return s.join(x)
     if isinstance(s, str) and isinstance(x, GuardedList):
         if all(isinstance(e, str) and not isinstance(e, AtomStr) for e in x.elems) and not isinstance(s, AtomStr):
             return make_atom('join', [(g, e) for e, g in zip(x.elems, x.guards)], extra=s)
